@@ -100,7 +100,7 @@ class NetWorld(World):
         return {"nsteps": (r.choice([8, 15, 30, 60, 100]) if not hub else r.choice([40, 60, 100]))
                 if focus != "C10" else r.choice([8, 12, 20, 30]),
                 "sessions": r.choice([1, 1, 2]), "fam": fam, "road": road,
-                "max_nodes": r.choice([2, 3, 4, 6, 9, 12]), "zero_w": r.choice([0, 0.1, 0.3]),
+                "max_nodes": r.choice([2, 3, 4, 6, 9, 12] * 4 + [40]), "zero_w": r.choice([0, 0.1, 0.3]),
                 "loops": r.choice([0, 0.1]), "oneway": r.choice([0, 0.2, 0.5]),
                 "reload": r.choice([0, 0, 0.03, 0.1]), "fault_rate": r.choice([0, 0, 0.2]),
                 "grid": r.choice([2, 3, 4]), "step": r.choice([10.0, 25.0, 7.5]),
